@@ -80,3 +80,16 @@ Example C13_str_order_example :
   lex_cmp N.compare (utf8_encode [0xFF5E%N]) (utf8_encode [0x10000%N]) = Lt
   /\ value_pcmp FStr (VS [0xFF5E%N]) (VS [0x10000%N]) = Some Lt.
 Proof. split; vm_compute; reflexivity. Qed.
+
+(* the Display view of an integer newtype (the decimal text of the stored value, Sem.Text)
+   identifies the stored value: two values of the type never print alike *)
+From NV Require Import Base.IntTy Sem.Text Lemmas.TextLemmas.
+Theorem C13_display_int_injective :
+  forall (t : int_ty) (z1 z2 : Z),
+    in_ty t z1 = true -> in_ty t z2 = true -> show_int z1 = show_int z2 -> z1 = z2.
+Proof.
+  intros t z1 z2 H1 H2 E.
+  pose proof (parse_show_int t z1 H1) as P1. pose proof (parse_show_int t z2 H2) as P2.
+  rewrite E in P1. rewrite P1 in P2. injection P2 as P2. exact P2.
+Qed.
+Print Assumptions C13_display_int_injective.
